@@ -1,0 +1,144 @@
+// Copyright 2020-2025 Buf Technologies, Inc.
+//
+// Licensed under the Apache License, Version 2.0 (the "License");
+// you may not use this file except in compliance with the License.
+// You may obtain a copy of the License at
+//
+//      http://www.apache.org/licenses/LICENSE-2.0
+//
+// Unless required by applicable law or agreed to in writing, software
+// distributed under the License is distributed on an "AS IS" BASIS,
+// WITHOUT WARRANTIES OR CONDITIONS OF ANY KIND, either express or implied.
+// See the License for the specific language governing permissions and
+// limitations under the License.
+
+//go:build verif
+
+package bufmodule
+
+// Contracts for the gocv verifier (see /verif/DESIGN.md). Comment-only. (author ca-A2)
+//
+// C10: the ModuleSet object (module_set.go): construction, lookups, the file-path cache.
+//
+// Accessor purity (trusted, as for the other Module accessors in zz_verif_contracts_deps.go).
+//@ trusted pure func (Module) BucketID() (r)
+//@ trusted pure func (Module) IsLocal() (r)
+// setModuleSet is reached through the Module interface (dynamic dispatch is not modelled): it writes the back pointer
+// of a module and nothing else; the implementation (*module).setModuleSet is verified below.
+//@ trusted func (Module) setModuleSet(moduleSet)
+//@   modifies heap module.moduleSet
+//@ func (m *module) setModuleSet(moduleSet)
+//@   property C10
+//@   modifies heap module.moduleSet
+//@   ensures m.moduleSet == moduleSet
+//@   ensures forall o *module :: o != m ==> o.moduleSet == old(o.moduleSet)
+//
+// newModuleSet: the set holds exactly the given modules, in the given order; the lookup maps are exact indexes of
+// them by OpaqueID / BucketID; two modules with one OpaqueID (or BucketID) are an error, never "last one wins".
+//@ func newModuleSet(modules) (r, err)
+//@   property C10
+//@   modifies heap module.moduleSet
+//@   ensures fresh: err == nil ==> r != nil && !old(allocated(r))
+//@   ensures failure-gives-nil: err != nil ==> r == nil
+//@   ensures modules-as-given: err == nil ==> r.modules == modules
+//@   ensures opaque-ids-unique: err == nil ==> (forall a int, b int :: 0 <= a && a < b && b < len(modules) ==> modules[a].OpaqueID() != modules[b].OpaqueID())
+//@   ensures duplicate-opaque-id-rejected: (exists a int, b int :: 0 <= a && a < b && b < len(modules) && modules[a].OpaqueID() == modules[b].OpaqueID()) ==> err != nil
+//@   ensures opaque-id-index-exact: err == nil ==> r.opaqueIDToModule != nil && (forall k string :: (k in r.opaqueIDToModule) <==> (exists j int :: 0 <= j && j < len(modules) && modules[j].OpaqueID() == k))
+//@   ensures opaque-id-index-values: err == nil ==> (forall j int :: 0 <= j && j < len(modules) ==> r.opaqueIDToModule[modules[j].OpaqueID()] == modules[j])
+//@   ensures bucket-ids-unique: err == nil ==> (forall a int, b int :: 0 <= a && a < b && b < len(modules) && modules[a].BucketID() != "" ==> modules[a].BucketID() != modules[b].BucketID())
+//@   ensures bucket-id-index-exact: err == nil ==> r.bucketIDToModule != nil && (forall k string :: (k in r.bucketIDToModule) <==> (k != "" && (exists j int :: 0 <= j && j < len(modules) && modules[j].BucketID() == k)))
+//@   ensures bucket-id-index-values: err == nil ==> (forall j int :: 0 <= j && j < len(modules) && modules[j].BucketID() != "" ==> r.bucketIDToModule[modules[j].BucketID()] == modules[j])
+//@   canary ensures err != nil
+//@   loop 0 invariant opaqueIDToModule != nil && bucketIDToModule != nil && moduleFullNameStringToModule != nil && descriptionToModule != nil && commitIDToModule != nil
+//@   loop 0 invariant forall k string :: (k in opaqueIDToModule) <==> (exists j int :: 0 <= j && j < $i && modules[j].OpaqueID() == k)
+//@   loop 0 invariant forall j int :: 0 <= j && j < $i ==> opaqueIDToModule[modules[j].OpaqueID()] == modules[j]
+//@   loop 0 invariant forall a int, b int :: 0 <= a && a < b && b < $i ==> modules[a].OpaqueID() != modules[b].OpaqueID()
+//@   loop 0 invariant forall k string :: (k in bucketIDToModule) <==> (k != "" && (exists j int :: 0 <= j && j < $i && modules[j].BucketID() == k))
+//@   loop 0 invariant forall j int :: 0 <= j && j < $i && modules[j].BucketID() != "" ==> bucketIDToModule[modules[j].BucketID()] == modules[j]
+//@   loop 0 invariant forall a int, b int :: 0 <= a && a < b && b < $i && modules[a].BucketID() != "" ==> modules[a].BucketID() != modules[b].BucketID()
+//@   loop 1 invariant true
+//
+// Lookups are plain index reads (nil when absent).
+//@ func (m *moduleSet) GetModuleForBucketID(bucketID) (r)
+//@   property C10
+//@   ensures (bucketID in m.bucketIDToModule) ==> r == m.bucketIDToModule[bucketID]
+//@   ensures !(bucketID in m.bucketIDToModule) ==> r == nil
+//@ func (m *moduleSet) GetModuleForFullName(moduleFullName) (r)
+//@   property C10
+//@   ensures (moduleFullName.String() in m.moduleFullNameStringToModule) ==> r == m.moduleFullNameStringToModule[moduleFullName.String()]
+//@   ensures !(moduleFullName.String() in m.moduleFullNameStringToModule) ==> r == nil
+//
+// (*moduleSet).getModuleForFilePath / (*moduleReadBucket).getFileInfo wrap the uncached functions into
+// cache.Cache.GetOrAdd, whose contract (miss: exactly what the uncached function returns, value and error, stored under
+// the key; hit: the stored pair) is verified in private/pkg/cache/zz_verif_contracts.go. The wrappers themselves are
+// not under contract: the cache is a struct-VALUED field called through a pointer receiver, for which the engine uses a
+// fresh address ("pointer-receiver calls on struct-valued fields (mutexes) do not change the modelled state"), so
+// `m.filePathToModuleCache.store` cannot be related to the callee's `c.store`.
+//
+// ---- views of a ModuleSet ----
+// The module list of a set seen through the interface is an immutable value (trusted; (*moduleSet).Modules returns a
+// copy of m.modules, verified in zz_verif_contracts_deps.go).
+//@ trusted pure func (ModuleSet) Modules() (r)
+//
+// Target / non-target / local / remote modules: exactly the modules of the set with that flag, in set order.
+//@ func ModuleSetTargetModules(moduleSet) (r)
+//@   property C10
+//@   closure 0 ensures r <==> module.IsTarget()
+//@   ensures only-targets: forall j int :: 0 <= j && j < len(r) ==> r[j].IsTarget() && (exists i int :: 0 <= i && i < len(moduleSet.Modules()) && moduleSet.Modules()[i] == r[j])
+//@   ensures all-targets: forall i int :: 0 <= i && i < len(moduleSet.Modules()) && moduleSet.Modules()[i].IsTarget() ==> (exists j int :: 0 <= j && j < len(r) && r[j] == moduleSet.Modules()[i])
+//@   ensures none: (forall i int :: 0 <= i && i < len(moduleSet.Modules()) ==> !moduleSet.Modules()[i].IsTarget()) ==> len(r) == 0
+//@ func ModuleSetNonTargetModules(moduleSet) (r)
+//@   property C10
+//@   closure 0 ensures r <==> !module.IsTarget()
+//@   ensures only-non-targets: forall j int :: 0 <= j && j < len(r) ==> !r[j].IsTarget() && (exists i int :: 0 <= i && i < len(moduleSet.Modules()) && moduleSet.Modules()[i] == r[j])
+//@   ensures all-non-targets: forall i int :: 0 <= i && i < len(moduleSet.Modules()) && !moduleSet.Modules()[i].IsTarget() ==> (exists j int :: 0 <= j && j < len(r) && r[j] == moduleSet.Modules()[i])
+//@ func ModuleSetLocalModules(moduleSet) (r)
+//@   property C10
+//@   closure 0 ensures r <==> module.IsLocal()
+//@   ensures only-local: forall j int :: 0 <= j && j < len(r) ==> r[j].IsLocal() && (exists i int :: 0 <= i && i < len(moduleSet.Modules()) && moduleSet.Modules()[i] == r[j])
+//@   ensures all-local: forall i int :: 0 <= i && i < len(moduleSet.Modules()) && moduleSet.Modules()[i].IsLocal() ==> (exists j int :: 0 <= j && j < len(r) && r[j] == moduleSet.Modules()[i])
+//@ func ModuleSetRemoteModules(moduleSet) (r)
+//@   property C10
+//@   closure 0 ensures r <==> !module.IsLocal()
+//@   ensures only-remote: forall j int :: 0 <= j && j < len(r) ==> !r[j].IsLocal() && (exists i int :: 0 <= i && i < len(moduleSet.Modules()) && moduleSet.Modules()[i] == r[j])
+//@   ensures all-remote: forall i int :: 0 <= i && i < len(moduleSet.Modules()) && !moduleSet.Modules()[i].IsLocal() ==> (exists j int :: 0 <= j && j < len(r) && r[j] == moduleSet.Modules()[i])
+//
+// OpaqueID lists: element-wise the OpaqueIDs of the corresponding module list.
+//@ func modulesOpaqueIDs(modules) (r)
+//@   property C10
+//@   closure 0 ensures r == module.OpaqueID()
+//@   ensures len(r) == len(modules) && (forall i int :: 0 <= i && i < len(modules) ==> r[i] == modules[i].OpaqueID())
+//@ func ModuleSetOpaqueIDs(moduleSet) (r)
+//@   property C10
+//@   ensures len(r) == len(moduleSet.Modules()) && (forall i int :: 0 <= i && i < len(r) ==> r[i] == moduleSet.Modules()[i].OpaqueID())
+//@ func ModuleSetTargetOpaqueIDs(moduleSet) (r)
+//@   property C10
+//@   ensures only-targets: forall j int :: 0 <= j && j < len(r) ==> (exists i int :: 0 <= i && i < len(moduleSet.Modules()) && moduleSet.Modules()[i].IsTarget() && moduleSet.Modules()[i].OpaqueID() == r[j])
+//@   ensures all-targets: forall i int :: 0 <= i && i < len(moduleSet.Modules()) && moduleSet.Modules()[i].IsTarget() ==> (exists j int :: 0 <= j && j < len(r) && r[j] == moduleSet.Modules()[i].OpaqueID())
+//
+// ---- re-targeting (WithTargetOpaqueIDs) ----
+// withIsTarget is reached through the Module interface (dynamic dispatch is not modelled): the copy has the requested
+// target flag and the identity of the original. Trusted at the interface; the implementation is verified on the fields.
+//@ trusted func (Module) withIsTarget(isTarget) (r, err)
+//@   ensures err == nil ==> r != nil && r.IsTarget() == isTarget && r.OpaqueID() == old(this.OpaqueID()) && r.IsLocal() == old(this.IsLocal()) && r.BucketID() == old(this.BucketID())
+//@ func (m *module) withIsTarget(isTarget) (r, err)
+//@   property C10
+//@   ensures copy-with-flag: err == nil ==> r != nil && !old(allocated(r)) && typeOf(r) == typeId(*module) && cast(*module, r).isTarget == isTarget
+//@   ensures identity-kept: err == nil ==> cast(*module, r).bucketID == m.bucketID && cast(*module, r).moduleFullName == m.moduleFullName && cast(*module, r).commitID == m.commitID && cast(*module, r).isLocal == m.isLocal && cast(*module, r).description == m.description
+//@   ensures original-untouched: m.isTarget == old(m.isTarget)
+//@   ensures own-read-bucket-same-targeting: err == nil ==> typeOf(cast(*module, r).ModuleReadBucket) == typeId(*moduleReadBucket) && cast(*moduleReadBucket, cast(*module, r).ModuleReadBucket).module == r && cast(*moduleReadBucket, cast(*module, r).ModuleReadBucket).targetPathMap == cast(*moduleReadBucket, m.ModuleReadBucket).targetPathMap && cast(*moduleReadBucket, cast(*module, r).ModuleReadBucket).targetExcludePathMap == cast(*moduleReadBucket, m.ModuleReadBucket).targetExcludePathMap && cast(*moduleReadBucket, cast(*module, r).ModuleReadBucket).protoFileTargetPath == cast(*moduleReadBucket, m.ModuleReadBucket).protoFileTargetPath
+//@ func (b *moduleReadBucket) withModule(module) (r)
+//@   property C10
+//@   ensures r != nil && !old(allocated(r)) && r.module == module
+//@   ensures same-targeting: r.targetPaths == b.targetPaths && r.targetPathMap == b.targetPathMap && r.targetExcludePathMap == b.targetExcludePathMap && r.protoFileTargetPath == b.protoFileTargetPath && r.includePackageFiles == b.includePackageFiles
+//
+// WithTargetOpaqueIDs: at least one OpaqueID is required; the new set has the same modules (by OpaqueID, in the same
+// order) and a module is a target in it exactly when its OpaqueID was listed.
+//@ func (m *moduleSet) WithTargetOpaqueIDs(opaqueIDs) (r, err)
+//@   property C10
+//@   modifies heap module.moduleSet
+//@   reveal inSlice
+//@   ensures empty-rejected: len(opaqueIDs) == 0 ==> err != nil && r == nil
+//@   loop 0 invariant len(modules) == len(m.modules) && opaqueIDMap != nil
+//@   loop 0 invariant forall j int :: 0 <= j && j < $i ==> modules[j] != nil && modules[j].OpaqueID() == m.modules[j].OpaqueID() && (modules[j].IsTarget() <==> inSlice(opaqueIDs, m.modules[j].OpaqueID()))
+//@   assert before "return newModuleSet(modules)" same-modules-retargeted: len(modules) == len(m.modules) && (forall j int :: 0 <= j && j < len(modules) ==> modules[j].OpaqueID() == m.modules[j].OpaqueID() && (modules[j].IsTarget() <==> inSlice(opaqueIDs, m.modules[j].OpaqueID())))
